@@ -111,6 +111,54 @@ def _candidates() -> dict[str, list[tuple[str, Any]]]:
     }
 
 
+_FLAKY = [False]
+_FLAKY_CLS: list[Any] = []
+
+
+def _flaky_class():
+    """A node class whose own __post_init__ can be made to fail after the base initialisation."""
+    if not _FLAKY_CLS:
+        import sys
+        import types
+        from dataclasses import dataclass
+
+        from models.zoo import VBase
+
+        @dataclass(frozen=True)
+        class VFlaky(VBase):
+            v: int = 0
+            kid: VBase | None = None
+
+            def __post_init__(self) -> None:
+                super().__post_init__()
+                if _FLAKY[0]:
+                    raise ValueError("flaky")
+
+        _FLAKY_CLS.append(VFlaky)
+        _ = sys, types
+    return _FLAKY_CLS[0]
+
+
+def _failing_operations_first() -> None:
+    """Operations on OTHER nodes that fail part-way (with the switch in whatever position the path
+    has it): a duplicate() and a replace() whose new node is rejected by its class, a rejected
+    construction, a load of a corrupt payload.  None of them may change how the next construction is
+    validated."""
+    from models.zoo import VLeaf, VValidated
+
+    F = _flaky_class()
+    x = F(v=1, kid=F(v=2, kid=VLeaf(v=3)))
+    _FLAKY[0] = True
+    try:
+        for op in (lambda: x.duplicate(), lambda: x.replace(v=5), lambda: F(v=9), lambda: VValidated(v=1, note="ok").replace(note="bad"), lambda: VLeaf.as_obj({"__type": "VLeaf", "id": "zz", "content_id": "zz", "v": {"not": "an int"}, "origin": {}})):
+            try:
+                op()
+            except Exception:  # noqa: BLE001
+                pass
+    finally:
+        _FLAKY[0] = False
+
+
 def make_construct_harness(first_field: str):
     def harness(e):
         from pyoak import config
@@ -137,7 +185,11 @@ def make_construct_harness(first_field: str):
         saved = dict(NODE_REGISTRY)  # keeps the candidate child nodes registered
         switch = e.bool("RUNTIME_TYPE_CHECK")
         config.RUNTIME_TYPE_CHECK = switch
+        prehistory = e.pick(["none", "failing-operations-on-other-nodes-first"], "prehistory")
+        scenario["prehistory"] = prehistory
         try:
+            if prehistory != "none":
+                _failing_operations_first()
             try:
                 node = VTyped(**kw)
                 raised = None
@@ -184,7 +236,7 @@ def make_construct_harness(first_field: str):
                 if snap[0] != snap2[0] or snap[1] != snap2[1] or snap[3] != snap2[3] or any(snap[2][n] is not snap2[2][n] and snap[2][n] != snap2[2][n] for n in names):
                     scenario.update(with_switch=repr(snap)[:300], other=repr(snap2)[:300])
                     e.fail("node-differs-between-switch-positions", scenario=scenario)
-        e.distinct((tuple(sorted(desc.items())), on))
+        e.distinct((tuple(sorted(desc.items())), on, prehistory))
         return scenario
 
     return harness
